@@ -226,7 +226,7 @@ func (c *Ctx) RunInst(tier string) {
 		}
 		unit++
 	}
-	c.Rep.Bound = fmt.Sprintf("%d scenarios of 2..3 concurrent jobs (assemble x3 kinds, load, simulate with a shared WarriorData and a shared configuration value) on the instrumented build, a scheduling point at every function entry, loop iteration and channel operation: every interleaving up to the largest preemption bound (<=%d) whose execution count fits %d, reported per scenario in the counters", len(scs), maxBound, budget)
+	c.Rep.Bound = fmt.Sprintf("%d scenarios of 1..3 concurrent jobs over 13 job kinds (assemblies of nine sources incl. a failing one, an ICWS'88 one, FOR blocks that emit nothing / carry labels, ORG+END; a load; simulations with a shared WarriorData and a shared configuration value, also of two and five rounds with Reset) on the instrumented build, a scheduling point at every function entry, loop iteration and channel operation: every interleaving up to the largest preemption bound (<=%d) whose execution count fits %d, reported per scenario in the counters", len(scs), maxBound, budget)
 	pb := 2
 	for pi := range mapPrograms {
 		if c.Sh.Mine(unit) && !c.expired() {
